@@ -58,6 +58,9 @@ Gen/Transformer.vos Gen/Transformer.vok Gen/Transformer.required_vos: Gen/Transf
 Gen/LintPin.vo Gen/LintPin.glob Gen/LintPin.v.beautified Gen/LintPin.required_vo: Gen/LintPin.v 
 Gen/LintPin.vio: Gen/LintPin.v 
 Gen/LintPin.vos Gen/LintPin.vok Gen/LintPin.required_vos: Gen/LintPin.v 
+Gen/DriverPin.vo Gen/DriverPin.glob Gen/DriverPin.v.beautified Gen/DriverPin.required_vo: Gen/DriverPin.v 
+Gen/DriverPin.vio: Gen/DriverPin.v 
+Gen/DriverPin.vos Gen/DriverPin.vok Gen/DriverPin.required_vos: Gen/DriverPin.v 
 Sem/Scenario.vo Sem/Scenario.glob Sem/Scenario.v.beautified Sem/Scenario.required_vo: Sem/Scenario.v Core/Base.vo Core/Prog.vo Py/Sig.vo Sem/Interp.vo Sem/InterpFacts.vo Sem/Model.vo Sem/Show.vo Gen/State.vo Sem/ScnSwitch.vo Gen/Validators.vo Gen/HasPatcher.vo Gen/Contracts.vo Gen/Dispatch.vo
 Sem/Scenario.vio: Sem/Scenario.v Core/Base.vio Core/Prog.vio Py/Sig.vio Sem/Interp.vio Sem/InterpFacts.vio Sem/Model.vio Sem/Show.vio Gen/State.vio Sem/ScnSwitch.vio Gen/Validators.vio Gen/HasPatcher.vio Gen/Contracts.vio Gen/Dispatch.vio
 Sem/Scenario.vos Sem/Scenario.vok Sem/Scenario.required_vos: Sem/Scenario.v Core/Base.vos Core/Prog.vos Py/Sig.vos Sem/Interp.vos Sem/InterpFacts.vos Sem/Model.vos Sem/Show.vos Gen/State.vos Sem/ScnSwitch.vos Gen/Validators.vos Gen/HasPatcher.vos Gen/Contracts.vos Gen/Dispatch.vos
@@ -88,6 +91,9 @@ Sem/LintModel.vos Sem/LintModel.vok Sem/LintModel.required_vos: Sem/LintModel.v 
 Sem/ScnLint.vo Sem/ScnLint.glob Sem/ScnLint.v.beautified Sem/ScnLint.required_vo: Sem/ScnLint.v Core/Base.vo Sem/Show.vo Sem/LintModel.vo
 Sem/ScnLint.vio: Sem/ScnLint.v Core/Base.vio Sem/Show.vio Sem/LintModel.vio
 Sem/ScnLint.vos Sem/ScnLint.vok Sem/ScnLint.required_vos: Sem/ScnLint.v Core/Base.vos Sem/Show.vos Sem/LintModel.vos
+Sem/LintDriver.vo Sem/LintDriver.glob Sem/LintDriver.v.beautified Sem/LintDriver.required_vo: Sem/LintDriver.v Gen/DriverPin.vo
+Sem/LintDriver.vio: Sem/LintDriver.v Gen/DriverPin.vio
+Sem/LintDriver.vos Sem/LintDriver.vok Sem/LintDriver.required_vos: Sem/LintDriver.v Gen/DriverPin.vos
 Sem/ScnSwitch.vo Sem/ScnSwitch.glob Sem/ScnSwitch.v.beautified Sem/ScnSwitch.required_vo: Sem/ScnSwitch.v Core/Base.vo Core/Prog.vo Sem/Interp.vo Sem/Show.vo Gen/State.vo
 Sem/ScnSwitch.vio: Sem/ScnSwitch.v Core/Base.vio Core/Prog.vio Sem/Interp.vio Sem/Show.vio Gen/State.vio
 Sem/ScnSwitch.vos Sem/ScnSwitch.vok Sem/ScnSwitch.required_vos: Sem/ScnSwitch.v Core/Base.vos Core/Prog.vos Sem/Interp.vos Sem/Show.vos Gen/State.vos
@@ -223,3 +229,9 @@ Thm/C18/Lint.vos Thm/C18/Lint.vok Thm/C18/Lint.required_vos: Thm/C18/Lint.v Core
 Props/C18.vo Props/C18.glob Props/C18.v.beautified Props/C18.required_vo: Props/C18.v Core/Base.vo Sem/Model.vo Gen/HasPatcher.vo Gen/Rules.vo Gen/LintPin.vo Sem/LintModel.vo Thm/C18/Lint.vo
 Props/C18.vio: Props/C18.v Core/Base.vio Sem/Model.vio Gen/HasPatcher.vio Gen/Rules.vio Gen/LintPin.vio Sem/LintModel.vio Thm/C18/Lint.vio
 Props/C18.vos Props/C18.vok Props/C18.required_vos: Props/C18.v Core/Base.vos Sem/Model.vos Gen/HasPatcher.vos Gen/Rules.vos Gen/LintPin.vos Sem/LintModel.vos Thm/C18/Lint.vos
+Thm/C16/Driver.vo Thm/C16/Driver.glob Thm/C16/Driver.v.beautified Thm/C16/Driver.required_vo: Thm/C16/Driver.v Core/Base.vo Sem/Model.vo Gen/HasPatcher.vo Gen/Rules.vo Gen/DriverPin.vo Sem/LintDriver.vo
+Thm/C16/Driver.vio: Thm/C16/Driver.v Core/Base.vio Sem/Model.vio Gen/HasPatcher.vio Gen/Rules.vio Gen/DriverPin.vio Sem/LintDriver.vio
+Thm/C16/Driver.vos Thm/C16/Driver.vok Thm/C16/Driver.required_vos: Thm/C16/Driver.v Core/Base.vos Sem/Model.vos Gen/HasPatcher.vos Gen/Rules.vos Gen/DriverPin.vos Sem/LintDriver.vos
+Props/C16.vo Props/C16.glob Props/C16.v.beautified Props/C16.required_vo: Props/C16.v Core/Base.vo Sem/Model.vo Gen/HasPatcher.vo Gen/Rules.vo Gen/DriverPin.vo Sem/LintDriver.vo Thm/C16/Driver.vo
+Props/C16.vio: Props/C16.v Core/Base.vio Sem/Model.vio Gen/HasPatcher.vio Gen/Rules.vio Gen/DriverPin.vio Sem/LintDriver.vio Thm/C16/Driver.vio
+Props/C16.vos Props/C16.vok Props/C16.required_vos: Props/C16.v Core/Base.vos Sem/Model.vos Gen/HasPatcher.vos Gen/Rules.vos Gen/DriverPin.vos Sem/LintDriver.vos Thm/C16/Driver.vos
